@@ -1004,7 +1004,11 @@ Proof.
   rewrite (ck_acquires f j k v p r b Hcall Hpost Hcase). cbn [key_of]. apply elem_of_app. right. left.
 Qed.
 
-Theorem ck_trylock_succeeds_when_key_free t ch c' f :
+(* NOTE ([_machine] lemmas): facts about the trusted, queue-less mutex machine of Model.v. Go's sync.RWMutex
+   also refuses new readers while a writer WAITS, and sync.Mutex.TryLock may fail on a free mutex with
+   queued waiters; the property ("free and uncontended") therefore needs the hypothesis [uncontended],
+   which SyncMap/Uncontended.v adds. Only those versions are property theorems. *)
+Theorem ck_trylock_succeeds_when_key_free_machine t ch c' f :
   top_frame c t = Some f -> (f_pc f = KM_TryLock \/ f_pc f = KRW_TryLock) ->
   (forall t2 b, (t2, key_of (f_call f), b) ∉ holders c) -> step c t ch = Some c' ->
   completed (c_hist c') = completed (c_hist c) ++ [(t, f_call f, RBool true)] /\ holds_excl c' t (key_of (f_call f)).
@@ -1021,7 +1025,7 @@ Proof.
   split; [exact Hc|]. apply (ck_now_holds t f c' _ true Tt Hpl Hc). right. left. auto.
 Qed.
 
-Theorem ck_tryrlock_succeeds_when_key_not_write_held t ch c' f :
+Theorem ck_tryrlock_succeeds_when_key_not_write_held_machine t ch c' f :
   top_frame c t = Some f -> f_pc f = KRW_TryRLock ->
   (forall t2, ~ holds_excl c t2 (key_of (f_call f))) -> step c t ch = Some c' ->
   completed (c_hist c') = completed (c_hist c) ++ [(t, f_call f, RBool true)] /\ holds_shared c' t (key_of (f_call f)).
@@ -1038,7 +1042,7 @@ Proof.
   split; [exact Hc|]. apply (ck_now_holds t f c' _ false Tt Hpl Hc). right. right. right. auto.
 Qed.
 
-Theorem ck_lock_succeeds_when_key_free t ch f :
+Theorem ck_lock_succeeds_when_key_free_machine t ch f :
   top_frame c t = Some f -> (f_pc f = KM_Lock \/ f_pc f = KRW_Lock) ->
   (forall t2 b, (t2, key_of (f_call f), b) ∉ holders c) ->
   exists c', step c t ch = Some c' /\ completed (c_hist c') = completed (c_hist c) ++ [(t, f_call f, RUnit)] /\
@@ -1058,7 +1062,7 @@ Proof.
   apply (ck_now_holds t f c' _ true Tt Hpl Hc). left. auto.
 Qed.
 
-Theorem ck_rlock_succeeds_when_key_not_write_held t ch f :
+Theorem ck_rlock_succeeds_when_key_not_write_held_machine t ch f :
   top_frame c t = Some f -> f_pc f = KRW_RLock ->
   (forall t2, ~ holds_excl c t2 (key_of (f_call f))) ->
   exists c', step c t ch = Some c' /\ completed (c_hist c') = completed (c_hist c) ++ [(t, f_call f, RUnit)] /\
